@@ -269,7 +269,7 @@ PROPS.update({
     'C11': dict(
         title='Opcode-count knobs bound the program size', verus=['core', 'mutv'], scans=['clifwd'], level='proof',
         technique='Verus contract on generate_internal: loop runs exactly T times, one opcode per iteration, tail <= 2T+1',
-        claim='Proof that the body has exactly T opcodes with min <= T < max (T = min when max <= min) and the collapse tail has at most 2T+1 opcodes. '
+        claim='Proof that the body has exactly T opcodes with min <= T <= max (T = min when max <= min) and the collapse tail has at most 2T+1 opcodes. '
               'Any mode (unsafe mutations included, budgets below 2^31): exactly T body emissions, each appending one non-empty, complete opcode (the simulated memo keys are 0..len in every mode, '
               'so BINGET always has a candidate).',
         note=_NOTE, assumptions=_CORE_ASSUME),
